@@ -39,6 +39,9 @@ pub struct RefGraph {
     // ---- statistics for probes ----
     pub groups_formed: u64,
     pub groups_died: u64,
+    /// a sliced graph: its groups depend on the rebuild order, which C13 leaves open; the model
+    /// adopts the implementation's collections (after C01's clauses) and allows no add/bind
+    pub adoptive: bool,
 }
 
 /// What one `data()` call did according to the model.
@@ -65,6 +68,7 @@ impl RefGraph {
             returned: BTreeSet::new(),
             groups_formed: 0,
             groups_died: 0,
+            adoptive: false,
         }
     }
 
@@ -107,11 +111,11 @@ impl RefGraph {
     // ---------------- contract (the quantifier text of the properties) ----------------
 
     pub fn can_add(&self, v: usize) -> bool {
-        v < self.cap
+        v < self.cap && !self.adoptive
     }
 
     pub fn can_bind(&self, a: usize, b: usize, l: &PLabel) -> bool {
-        if a == b {
+        if a == b || self.adoptive {
             return false;
         }
         let (Some(ma), Some(mb)) = (self.present.get(&a), self.present.get(&b)) else {
@@ -213,6 +217,9 @@ impl RefGraph {
         self.union(ia, ib);
         self.bound_ever[ia as usize] = true;
         self.bound_ever[ib as usize] = true;
+        if self.adoptive {
+            return;
+        }
         match (ga, gb) {
             (None, None) => {
                 let g = self.next_group;
@@ -267,6 +274,32 @@ impl RefGraph {
             first_read,
             removed,
         }
+    }
+
+    /// Adoptive graphs only: take over a collection the implementation made.
+    pub fn adopt_removed(&mut self, removed: &[usize]) {
+        for r in removed {
+            if self.present.remove(r).is_some() {
+                self.collected_ever.insert(*r);
+            }
+        }
+    }
+
+    /// Build the model of a slice: the kept vertices and the edges the slice really has.
+    pub fn slice_model(cap: usize, n: usize, verts: &[(usize, Vec<(PLabel, usize)>)]) -> Self {
+        let mut m = Self::new(cap, n);
+        for (v, _) in verts {
+            m.add(*v);
+        }
+        m.adoptive = true;
+        for (v, kids) in verts {
+            for (l, t) in kids {
+                if m.is_present(*t) {
+                    m.bind(*v, *t, l);
+                }
+            }
+        }
+        m
     }
 
     /// Record an id handed out by the allocator (the model adopts it).
